@@ -17,7 +17,13 @@ client is silent: the interrupted operation must leave no trace.
 """
 
 import asyncio
+import collections.abc
+import email.message
 import enum
+import io
+import re
+import types
+import wsgiref.headers
 import itertools
 import json
 import logging
@@ -34,7 +40,13 @@ LEVEL = 'fault_enumeration'
 SHARDS = {'quick': 4, 'thorough': 16}
 BUDGET = {'quick': 15, 'thorough': 150}
 
-falcon._logger.disabled = True          # error handlers log tracebacks: slow and noisy
+falcon._logger.disabled = True          # error handlers log tracebacks: slow and noisy; enabled per case (below)
+logging.raiseExceptions = False         # a log record that cannot be rendered is dropped silently (production setting)
+_LOG_SINK = io.StringIO()
+_LOG_HANDLER = logging.StreamHandler(_LOG_SINK)     # a real formatting handler: records are rendered in emit()
+falcon._logger.addHandler(_LOG_HANDLER)
+falcon._logger.setLevel(logging.DEBUG)
+falcon._logger.propagate = False
 logging.getLogger('asyncio').disabled = True
 
 ERR = {
@@ -76,6 +88,8 @@ class Ctx:
         self.ops = {}
         self.route = case['route']  # effective route: process_request_ws may re-route by assigning req.path
         self.rewrites = 0
+        self.header_objects = 0
+        self.unusual = 0            # exceptions with raising __str__/__repr__/__format__ raised by user code
         self.typed = 0              # typed arguments (str subclasses, IntEnum members) handed to the real code
         self.oplog = []             # (site, op name, result, [attempt outcomes])
         self.diverged_at = None
@@ -115,6 +129,47 @@ def is_typed(x):
     return isinstance(x, dict) and ('strsub' in x or 'intenum' in x)
 
 
+class ItemsOnly:
+    """Offers items() and nothing else: not a Mapping, not iterable, no len()."""
+
+    def __init__(self, pairs, one_shot=False):
+        self._pairs, self._one_shot = pairs, one_shot
+
+    def items(self):
+        return iter(self._pairs) if self._one_shot else list(self._pairs)
+
+
+def header_object(kind, pairs):
+    """accept(headers=...): 'an iterable of (name, value) two-item iterables' or 'a dict-like object ... that
+    implements an items() method' - every documented shape, incl. one-shot ones."""
+    if kind == 'wsgiref':
+        return wsgiref.headers.Headers(list(pairs))
+    if kind == 'message':
+        m = email.message.Message()
+        for k, v in pairs:
+            m[k] = v
+        return m
+    if kind == 'items_only':
+        return ItemsOnly(pairs)
+    if kind == 'items_iter':
+        return ItemsOnly(pairs, one_shot=True)
+    if kind == 'generator':
+        return (p for p in pairs)
+    if kind == 'list_of_lists':
+        return [list(p) for p in pairs]
+    if kind == 'pair_iterators':
+        return [iter(p) for p in pairs]
+    if kind == 'mapping_proxy':
+        return types.MappingProxyType(dict(pairs))
+    if kind == 'tuple':
+        return tuple(pairs)
+    raise AssertionError(kind)
+
+
+HEADER_OBJECTS = ('wsgiref', 'message', 'items_only', 'items_iter', 'generator', 'list_of_lists', 'pair_iterators',
+                  'mapping_proxy', 'tuple')
+
+
 def prep(step):
     """JSON step -> executable step (adds '_v', '_hdrs'; typed arguments are materialised in the copy)."""
     s = dict(step)
@@ -133,7 +188,14 @@ def prep(step):
     else:
         s['_v'] = v
     h = s.get('hdrs')
-    if isinstance(h, list):
+    if isinstance(h, dict) and 'obj' in h:
+        pairs = [tuple(mat(e) for e in p) for p in h['pairs']]
+        if h['obj'] == 'mapping_proxy':
+            pairs = list(dict(pairs).items())
+        s['hdrs'] = pairs                       # what the model reads
+        s['_hdrs'] = header_object(h['obj'], pairs)
+        CTX.header_objects += 1
+    elif isinstance(h, list):
         s['_hdrs'] = [tuple(mat(e) for e in p) for p in h]
         s['hdrs'] = s['_hdrs']
     else:
@@ -141,22 +203,51 @@ def prep(step):
     return s
 
 
+def safe_repr(x):
+    try:
+        return repr(x)
+    except Exception:  # noqa
+        return '<unrenderable %s>' % type(x).__name__
+
+
+def _boom(self, *a):
+    raise AttributeError('this exception cannot be rendered')
+
+
+def badstr(cls):
+    """Subclass whose str()/repr()/format() raise (e.g. a __str__ formatting an attribute that is not always set)."""
+    return type('Unrenderable' + cls.__name__, (cls,), {'__str__': _boom, '__repr__': _boom, '__format__': _boom})
+
+
+BAD = {}
+
+
 def make_exc(step):
+    cls, arg = _exc_spec(step)
+    if step.get('badstr'):
+        if cls not in BAD:
+            BAD[cls] = badstr(cls)
+        cls = BAD[cls]
+        CTX.unusual += 1
+    return cls(arg)
+
+
+def _exc_spec(step):
     k = step['exc']
     if k == 'http_error':
-        return falcon.HTTPError(step.get('status', 404))
+        return falcon.HTTPError, step.get('status', 404)
     if k == 'http_status':
-        return falcon.HTTPStatus(step.get('status', 204))
+        return falcon.HTTPStatus, step.get('status', 204)
     if k == 'value':
-        return ValueError('scripted')
+        return ValueError, 'scripted'
     if k == 'type':
-        return TypeError('scripted')
+        return TypeError, 'scripted'
     if k == 'custom':
-        return CustomErr('scripted')
+        return CustomErr, 'scripted'
     if k == 'wsd':
-        return ferrors.WebSocketDisconnected(step.get('code'))
+        return ferrors.WebSocketDisconnected, step.get('code')
     if k == 'ona':
-        return ferrors.OperationNotAllowed('scripted')
+        return ferrors.OperationNotAllowed, 'scripted'
     raise AssertionError(k)
 
 
@@ -293,11 +384,38 @@ class BinHandler(falcon.media.BinaryBaseHandlerWS):
 WS_RES = WsResource()
 NOWS_RES = HttpOnlyResource()
 _apps = {}
-_default_reasons = {}
+_own_table = {}              # the default_close_reasons object each app was born with
+APP_PROBLEMS = []            # configuration findings made when an app is created
 
 
-def get_app(mw, handler_sig):
-    key = (bool(mw), handler_sig)
+def reference_reasons():
+    """docs (WebSocketOptions.default_close_reasons): a mapping between the close code and the reason; "close
+    codes corresponding to HTTP errors are also included" - 1000, 1011/3011 and 3000+status with the reason
+    phrase of the public falcon.HTTP_1xx..5xx constants.  Built here, never read from an app."""
+    ref = {1000: 'Normal Closure', 1011: 'Internal Server Error', 3011: 'Internal Server Error'}
+    for name in dir(falcon.status_codes):
+        if re.fullmatch(r'HTTP_[1-5]\d\d', name):
+            code, _, phrase = getattr(falcon.status_codes, name).partition(' ')
+            ref[3000 + int(code)] = phrase
+    return ref
+
+
+REFERENCE_REASONS = reference_reasons()
+
+
+def edit_in_place(table):
+    """The documented way to customise one app: add / replace / delete entries of its own table."""
+    table[4001] = 'four thousand one'
+    table[3404] = 'No such channel'
+    table[1000] = 'Bye'
+    table.pop(1011, None)
+    table[3403] = 'Nope'
+    return table
+
+
+def get_app(mw, handler_sig, inplace=False):
+    """Returns (app, the reasons this app must use when left as it is)."""
+    key = (bool(mw), handler_sig, bool(inplace))
     app = _apps.get(key)
     if app is None:
         app = falcon.asgi.App(middleware=[Middleware()] if mw else None)
@@ -309,9 +427,22 @@ def get_app(mw, handler_sig):
         elif handler_sig == 'nows':
             app.add_error_handler(CustomErr, handler_without_ws)
         app.ws_options.media_handlers[falcon.WebSocketPayloadType.BINARY] = BinHandler()
-        _default_reasons[key] = dict(app.ws_options.default_close_reasons)
+        table = app.ws_options.default_close_reasons
+        # every app starts from the documented defaults, and owns its table
+        if dict(table) != REFERENCE_REASONS:
+            diff = {k: (REFERENCE_REASONS.get(k), table.get(k)) for k in set(REFERENCE_REASONS) | set(table)
+                    if REFERENCE_REASONS.get(k) != table.get(k)}
+            APP_PROBLEMS.append(('new-app-close-reasons-not-default', {'app': list(key), 'diff(want,got)': diff,
+                                                                       'apps_before': [list(k) for k in _apps]}))
+        for k2, t2 in _own_table.items():
+            if t2 is table:
+                APP_PROBLEMS.append(('close-reasons-table-shared-between-apps', {'app': list(key), 'other': list(k2)}))
+        if inplace:
+            edit_in_place(table)
+        _own_table[key] = table
         _apps[key] = app
-    return app, _default_reasons[key]
+    app.ws_options.default_close_reasons = _own_table[key]        # undo a replacement made by an earlier case
+    return app, (edit_in_place(dict(REFERENCE_REASONS)) if inplace else dict(REFERENCE_REASONS))
 
 
 PATHS = {'ok': '/ws', 'param': '/room/lobby', 'unrouted': '/nope', 'nows': '/nows'}
@@ -361,17 +492,20 @@ def execute(case):
     """Run one case against the real code; returns Outcome with driver, model, problems."""
     case = norm_case(case)
     handler = case['handler']
-    app, reasons = get_app(case['mw'] is not None, handler['sig'] if handler else None)
+    app, reasons = get_app(case['mw'] is not None, handler['sig'] if handler else None,
+                           inplace=case['reasons'] == 'inplace')
     opts = app.ws_options
     opts.max_receive_queue = case['queue']
     err_code = mat(case['err_code'])
     opts.error_close_code = err_code
     if case['reasons'] == 'custom':
+        # replacing the attribute with a new mapping
         reasons = dict(reasons)
         reasons.pop(1000, None)
         reasons[4001] = 'four thousand one'
         reasons[3403] = 'Nope'
-    opts.default_close_reasons = reasons
+        opts.default_close_reasons = reasons
+    falcon._logger.disabled = not uses_logging(case)
     spec = case['spec']
     evs = client_events(case['client'])
     fail = case['fail'] or {}
@@ -398,6 +532,16 @@ def execute(case):
     o.terminal = None
     judge_end(o)
     return o
+
+
+def uses_logging(case):
+    """Cases raising exceptions with unusual dunders run with the real logging path switched on."""
+    scripts = [case['steps']]
+    if case['mw']:
+        scripts += [case['mw']['req'], case['mw']['res']]
+    if case['handler']:
+        scripts.append(case['handler']['steps'])
+    return any(s.get('badstr') for sc in scripts for s in sc)
 
 
 def expected_sites(case, route):
@@ -521,7 +665,7 @@ def _judge_end(o, P):
         if terminal[0] == 'unexpected':
             terminal = ('handler-failed',)
     elif 'handler' in c.sites:
-        P.append(('handler-called-unexpectedly', {'ended': repr(ended_ex)}))
+        P.append(('handler-called-unexpectedly', {'ended': safe_repr(ended_ex)}))
     o.terminal = terminal
 
     # ---- the close the framework owes
@@ -558,7 +702,7 @@ def _judge_end(o, P):
     # ---- statement level: a close (or denial) is always sent while the client is still connected
     if terminal[0] != 'handler-failed' and not model.handshake_rejected and drv.unclosed_at_end():
         P.append(('no-close-at-end', {'terminal': list(terminal), 'state': drv.state, 'app_outcome': drv.outcome,
-                                      'exc': repr(drv.exc)}))
+                                      'exc': safe_repr(drv.exc)}))
     if drv.outcome == 'raised':
         o.diag.append('app-raised:' + type(drv.exc).__name__)
     if drv.pending_tasks:
@@ -657,6 +801,14 @@ def run_case(rec, case, tag):
             rec.count('fault.%s.%s' % (a[2].split(':')[1], (a[1].get('type') or '?').split('.')[-1]))
     if drv.disconnect_handed:
         rec.count('server.disconnect-handed')
+    while APP_PROBLEMS:
+        kind, detail = APP_PROBLEMS.pop(0)
+        rec.violation('app-config:' + kind, {'case': case, 'problems': [[kind, detail]]})
+    if c.unusual:
+        rec.count('args.unrenderable-exception', c.unusual)
+    if c.header_objects:
+        rec.count('args.header-object', c.header_objects)
+    rec.count('reasons.' + norm_case(case)['reasons'])
     if c.typed:
         rec.count('args.typed', c.typed)
     if is_typed(norm_case(case)['err_code']):
@@ -680,7 +832,7 @@ def run_case(rec, case, tag):
     for key, probs in explain(o) if o.problems else ():
         wit = {'case': case, 'problems': [[k, d] for k, d in probs[:6]],
                'attempts': [[a[0], a[1], a[2]] for a in drv.attempts[:12]],
-               'sites': c.sites, 'outcome': drv.outcome, 'exc': repr(drv.exc), 'terminal': o.terminal}
+               'sites': c.sites, 'outcome': drv.outcome, 'exc': safe_repr(drv.exc), 'terminal': o.terminal}
         rec.violation(probs[0][0], wit, known_key=key)
     return o
 
@@ -913,6 +1065,33 @@ def block_e(rec):
                 go(dict(cfg, steps=steps, client=[{'t': 'bytes', 'hex': '00'}], **ec), 'types')
             go(dict(cfg, steps=[{'op': 'accept'}, {'op': 'raise', 'exc': 'custom'}],
                     handler={'sig': 'nows', 'steps': []}, **ec), 'types')
+    # accept(headers=...): every documented shape of the argument
+    pair_sets = ([['Set-Cookie', 'a=1'], ['Set-Cookie', 'b=2'], ['X-Mixed-Case', 'V']], [['x-one', '']],
+                 [[SS('enum', 'X-Kw'), SS('masked', 'v')], ['Sec-WebSocket-Protocol', 'wamp']])
+    for cfg in [{'spec': sp, 'queue': q} for sp in (None, '2.0', '2.1', '2.4') for q in (0, 2)]:
+        for kind in HEADER_OBJECTS:
+            for pairs in pair_sets:
+                go(dict(cfg, steps=[{'op': 'accept', 'hdrs': {'obj': kind, 'pairs': pairs}},
+                                    {'op': 'send_text', 'v': 'x'}]), 'header-objects')
+            go(dict(cfg, mw={'req': [{'op': 'accept', 'sub': 'wamp', 'hdrs': {'obj': kind, 'pairs': pair_sets[0]}}],
+                             'res': []}, offered=['wamp'], steps=[{'op': 'send_text', 'v': 'x'}]), 'header-objects')
+    # exceptions whose str()/repr()/format() raise, on every path that reports an exception
+    for cfg in cfgs:
+        for exc in ({'exc': 'http_error', 'status': 403}, {'exc': 'http_error', 'status': 500},
+                    {'exc': 'http_status', 'status': 204}, {'exc': 'http_status', 'status': 404},
+                    {'exc': 'value'}, {'exc': 'custom'}, {'exc': 'wsd', 'code': 1001}):
+            r = dict(exc, op='raise', badstr=True)
+            for pre in ([], [{'op': 'accept'}], [{'op': 'accept'}, {'op': 'send_text', 'v': 'x'}]):
+                go(dict(cfg, steps=pre + [r]), 'unrenderable')
+                go(dict(cfg, mw={'req': pre + [r], 'res': []}, steps=[]), 'unrenderable')
+                go(dict(cfg, mw={'req': [], 'res': pre + [r]}, steps=[]), 'unrenderable')
+            for handler in HANDLERS[1:]:
+                if exc['exc'] == 'custom':
+                    go(dict(cfg, steps=[{'op': 'accept'}, r], handler=handler), 'unrenderable')
+        for hexc in ({'exc': 'http_error', 'status': 409}, {'exc': 'http_status', 'status': 202}):
+            for sig in ('ws', 'nows'):
+                go(dict(cfg, steps=[{'op': 'accept'}, {'op': 'raise', 'exc': 'custom'}],
+                        handler={'sig': sig, 'steps': [dict(hexc, op='raise', badstr=True)]}), 'unrenderable')
     # (b) re-routing
     routes = ('ok', 'param', 'unrouted', 'nows')
     for orig in routes:
@@ -929,6 +1108,27 @@ def block_e(rec):
                             go({'route': orig, 'mw': {'req': req_script, 'res': res_script}, 'steps': steps,
                                 'spec': spec, 'queue': queue, 'client': [T1]}, 'reroute')
     return idx
+
+
+def block_f(rec):
+    """Several apps in one process: each app's close reasons follow from its own configuration.  Not sharded
+    (every process has its own apps): an app that exists already, one customised in place, the first app again,
+    and an app created after the customisation."""
+    probes = [{'steps': []}, {'steps': [{'op': 'accept'}]}, {'route': 'unrouted'}, {'route': 'nows'},
+              {'steps': [{'op': 'raise', 'exc': 'value'}]}, {'steps': [{'op': 'accept'}, {'op': 'raise', 'exc': 'type'}]},
+              {'steps': [{'op': 'raise', 'exc': 'http_error', 'status': 403}]},
+              {'steps': [{'op': 'accept'}, {'op': 'close', 'code': 4001}]},
+              {'steps': [{'op': 'accept'}, {'op': 'close', 'code': 3404, 'reason': 'explicit'}]}]
+    n = 0
+    for stage in ({}, {'reasons': 'inplace'}, {}, {'reasons': 'custom'}, {},
+                  {'mw': {'req': [], 'res': []}, 'handler': {'sig': 'nows', 'steps': []}},
+                  {'mw': {'req': [], 'res': []}, 'handler': {'sig': 'nows', 'steps': []}, 'reasons': 'inplace'},
+                  {'mw': {'req': [], 'res': []}}, {}):
+        for spec in ('2.4', '2.3', '2.2'):
+            for p in probes:
+                run_case(rec, dict(p, spec=spec, queue=0, **stage), 'apps')
+                n += 1
+    return n
 
 
 MW_SCRIPTS = [
@@ -1117,6 +1317,10 @@ def rnd_step(rng, allow_raise=True):
             s['code'] = rng.choice([None, 1001, 4000])
     if s['op'] not in ('yield', 'raise') and rng.random() < 0.12:
         s['prop'] = True
+    if s['op'] == 'raise' and rng.random() < 0.2:
+        s['badstr'] = True
+    if s['op'] == 'accept' and isinstance(s.get('hdrs'), list) and s['hdrs'] and rng.random() < 0.5:
+        s['hdrs'] = {'obj': rng.choice(HEADER_OBJECTS), 'pairs': s['hdrs']}
     # documented argument types other than the exact built-ins
     if rng.random() < 0.15:
         kind = rng.choice(['enum', 'masked'])
@@ -1178,7 +1382,7 @@ def rnd_case(rng):
         'route': rng.choice(['ok', 'ok', 'ok', 'ok', 'param', 'unrouted', 'nows']),
         'steps': rnd_script(rng, 8),
         'client': rnd_client(rng),
-        'reasons': rng.choice(['default', 'custom']),
+        'reasons': rng.choice(['default', 'default', 'custom', 'inplace']),
     }
     if rng.random() < 0.35:
         case['mw'] = {'req': rnd_script(rng, 2, False) if rng.random() < 0.5 else [],
@@ -1245,6 +1449,7 @@ def run(rec):
         'BINARY media uses a codec installed by the check (msgpack is not installed)',
         'a close issued in reply to a first event that is websocket.disconnect is recorded as a diagnostic only',
     ]
+    block_f(rec)
     block_c(rec)
     na = block_a(rec)
     nb = block_b(rec)
@@ -1282,6 +1487,13 @@ def run(rec):
         rec.floor('branch.' + b, 20)
     rec.floor('phase.exhaustive-cancel', 1000)
     rec.floor('phase.types', 500)
+    rec.floor('phase.apps', 200)
+    rec.floor('phase.header-objects', 200)
+    rec.floor('phase.unrenderable', 300)
+    rec.floor('args.header-object', 200)
+    rec.floor('args.unrenderable-exception', 300)
+    rec.floor('reasons.inplace', 50)
+    rec.floor('reasons.custom', 50)
     rec.floor('phase.reroute', 1000)
     rec.floor('args.typed', 1000)
     rec.floor('route.rewritten', 1000)
